@@ -17,6 +17,7 @@ from vlib.core import Res
 PROP = "C05"
 SHARDS = {"quick": 16, "thorough": 16}
 TIME_LIMIT = {"quick": 2400, "thorough": 8 * 3600}
+CASE_TIMEOUT_S = 600   # a case that takes longer is inconclusive (counted as ambiguous), never a violation
 RULE = ("Hypothesis: a sky catalogue of 1..150 sources laid out on a jittered grid of a 128..320 px image (SIN/TAN/ZEA/ARC/STG, "
         "any dec <= 80, field within 1.4 deg of the reference point): isolated sources and blended groups of 2-3 (one island), "
         "sizes from the beam to 4x the beam so that the cut-out width round(4 sigma)+1 is odd and even about equally, sources "
@@ -85,6 +86,11 @@ def build(c):
         intr_a = math.sqrt(max(sf * sf - 1.0, 0.0)) * hdr["BMAJ"]
         intr = (intr_a + 1e-9, intr_a * rng.uniform(0.4, 1.0) + 1e-9, rng.uniform(-90, 90))
         a, b, pa = skyimg.convolve(beam, intr)
+        if sizef is None and rng.random() < 0.15:
+            # catalogued sizes slightly below the psf occur in real catalogues (fitted sizes scatter around the psf)
+            k = rng.uniform(0.86, 0.98)
+            a, b, pa = beam[0] * k, min(beam[1] * rng.uniform(0.86, 0.98), beam[0] * k * 0.999), beam[2]
+            kind = kind + "-subpsf" if kind == "grid" else kind
         src = ComponentSource()
         src.ra, src.dec = ra, dec
         src.peak_flux = float(rng.uniform(0.5, 5.0) * rng.choice([1, 1, 1, -1]))
@@ -260,7 +266,7 @@ def check_case(c):
         for u, e in by_uuid.items():
             src, kind, (px, py) = e
             inside = 6 <= px <= B["shape"][1] - 5 and 6 <= py <= B["shape"][0] - 5
-            if acc[u] and kind in ("grid", "blend") and inside and u not in seen:
+            if acc[u] and kind in ("grid", "grid-subpsf", "blend") and inside and u not in seen:
                 res.bad("accepted-source-missing", "%s: %s source %s is on the image but was not returned" % (what, kind, u), **tags)
                 break
         nrej = sum(1 for u in acc if not acc[u])
